@@ -4,6 +4,10 @@ import json, os
 HERE = os.path.dirname(os.path.dirname(os.path.abspath(__file__)))
 
 CHECKS = {
+ 'C12': dict(level='model_checking', design='2/C12',
+   technique='deviation-bounded stateless DFS over reply schedules and reply faults (order, short reads, errors, premature EOF, simultaneous completions in both asyncio.wait orders) of a model SFTP server under the real SFTPClient transfer code, model file store as reference; plus end-to-end sparse transfers through the real server',
+   text='get/put/copy (sparse and non-sparse) and SFTPClientFile read/write run for block size {4,8} x max_requests {1,2,3} x sizes around block/window multiples x all 16 hole layouts of a 4-block file (with/without the ranges extension) while the explorer answers any of the 3 oldest outstanding requests in full, with 1 byte, half, FAILURE, PERMISSION_DENIED or premature EOF. A normal return must leave destination == source; any failed block (or early end of a non-sparse source) must raise. End-to-end: tmpfs sparse files with up to 129 (thorough 300) extents through real client, SSH and real SFTPServer.',
+   note='SFTP v3 framing in the model server; bound 1 in quick except a core subset at 2; mget/mput/mcopy and recursive drivers are exercised in C13.'),
  'C11': dict(level='model_checking', design='2/C11',
    technique='deviation-bounded stateless DFS over packet delivery orders around byte/time-triggered re-exchanges in a busy real client<->server session (stream reference model + wire-label filter), plus enumeration of re-exchange positions and algorithm changes against the independent peer which derives the new keys itself',
    text='A: seven (thorough nine) trigger configurations (byte limits from one packet up, time limits on the virtual clock, client/server/both) run ping-pong data in both directions and open a second session mid-stream; all delivery orders within the deviation bound (deviations wherever an exchange is in progress or a KEXINIT is in flight, so simultaneous initiation is reached). Data and request replies must be intact and in order, only kex/transport messages may be emitted between an endpoint\'s KEXINIT and NEWKEYS, the session id must not change. B: refpeer or asyncssh initiates a re-exchange after auth, after channel open and mid-data while the cipher/MAC suite changes among 4 suites; refpeer verifies every later packet under keys it derived from the new K,H and the old session id, and the key material must differ.',
